@@ -841,7 +841,11 @@ func (h *packetHandlerMap) ReplaceWithClosed(ids []protocol.ConnectionID, connCl
 	time.AfterFunc(expiry, func() {
 		h.mutex.Lock()
 		for _, id := range ids {
-			delete(h.handlers, id)
+			// Only remove what we put there: with zero-length connection IDs, a new connection
+			// (e.g. the one recreated after Version Negotiation) is registered under the same ID.
+			if h.handlers[id] == handler {
+				delete(h.handlers, id)
+			}
 		}
 		if len(h.handlers) == 0 {
 			t := (*Transport)(h)
